@@ -191,7 +191,41 @@ func loadWorld(repo, verif string) (*World, error) {
 			return nil, err
 		}
 	}
+	w.expandGhostWildcards()
 	return w, nil
+}
+
+// expandGhostWildcards: `modifies ghost obs.*` stands for every declared ghost whose name starts with "obs.".
+func (w *World) expandGhostWildcards() {
+	var ghosts []string
+	for _, n := range w.defOrder {
+		if d := w.defs[n]; d.Kind == "ghost" {
+			ghosts = append(ghosts, n)
+		}
+	}
+	expand := func(ms []ModLoc) []ModLoc {
+		var out []ModLoc
+		for _, m := range ms {
+			if m.Ghost != "" && strings.HasSuffix(m.Ghost, "*") {
+				pre := strings.TrimSuffix(m.Ghost, "*")
+				for _, g := range ghosts {
+					if strings.HasPrefix(g, pre) {
+						out = append(out, ModLoc{Ghost: g, Src: "ghost " + g})
+					}
+				}
+				continue
+			}
+			out = append(out, m)
+		}
+		return out
+	}
+	for _, c := range w.contracts {
+		c.Modifies = expand(c.Modifies)
+		c.SpawnMod = expand(c.SpawnMod)
+		for k, v := range c.LoopMod {
+			c.LoopMod[k] = expand(v)
+		}
+	}
 }
 
 func (w *World) addSpecFile(sf *SpecFile) error {
